@@ -357,8 +357,10 @@ def observer_profiles():
     q = [dict(n=10, steps=60, backend="mixed", regime="causal", profile="members", observers=1, groups=2),
          dict(n=10, steps=60, backend="sql", regime="causal", profile="members", observers=1, retention=2),
          dict(n=8, steps=50, backend="mem", regime="causal", profile="members", observers=1, restarts=0)]
+    q += [dict(n=6, backend="mixed", profile="leaf"), dict(n=8, backend="mixed", profile="welcome")]
     t = [dict(n=50, steps=70, backend=["mem", "sql", "mixed"][i % 3], regime="causal", profile="members", observers=1,
               retention=[5, 2, 1, 3][i % 4]) for i in range(8)]
+    t += [dict(n=50, backend="mixed", profile="leaf"), dict(n=50, backend="mixed", profile="welcome")]
     return {"quick": q, "thorough": t}
 
 
@@ -491,8 +493,12 @@ def junk_profiles():
     q = [dict(n=8, steps=70, backend="mixed", regime="causal", profile="members", observers=1, junk=1, groups=2),
          dict(n=8, steps=60, backend="sql", regime="causal", profile="core", junk=1, retention=2),
          dict(n=8, steps=70, backend="mem", regime="causal", profile="members", junk=1)]
+    # refusals provoked by a hostile MEMBER (forged rumors, raw commits, Update / Remove proposals) and late wrappers after leaf reuse
+    q += [dict(n=6, steps=70, backend="mixed", regime="causal", profile="members", adv=1, junk=1),
+          dict(n=6, backend="mixed", profile="leaf")]
     t = [dict(n=40, steps=80, backend=["mem", "sql", "mixed"][i % 3], regime="causal", profile=["members", "core"][i % 2],
-              observers=1, junk=1, retention=[5, 2, 1][i % 3]) for i in range(8)]
+              observers=1, junk=1, adv=i % 2, retention=[5, 2, 1][i % 3]) for i in range(8)]
+    t += [dict(n=40, backend="mixed", profile="leaf"), dict(n=40, backend="mixed", profile="props")]
     return {"quick": q, "thorough": t}
 
 
@@ -538,16 +544,24 @@ ASSUME_ADV = ["the adversary is a real group member whose client bypasses mdk's 
 
 
 def plan_C04(ctx, rt):
+    pr = adversary_profiles()
+    # late wrappers of a removed member whose leaf has been taken over by a newcomer (authentication against the sender's epoch)
+    pr["quick"] = pr["quick"] + [dict(n=10, backend="mixed", profile="leaf")]
+    pr["thorough"] = pr["thorough"] + [dict(n=60, backend=["mixed", "mem", "sql"][i], profile="leaf", maxpast=[5, 2, 5][i]) for i in range(3)]
     return run_marmot(ctx, rt, invariants=["InvC04"], properties=["ActC04", "ActC02"], view="C04", mc=MC_CORE,
-                      profiles=adversary_profiles(), nontrivial=nt_forge, assumptions=ASSUME_MARMOT + ASSUME_ADV,
+                      profiles=pr, nontrivial=nt_forge, assumptions=ASSUME_MARMOT + ASSUME_ADV,
                       rule="membership histories with a malicious member: rumors claiming another member's pubkey, rumors with a random pre-set id, "
                            "rumors pre-setting the id of an existing message of somebody else, duplicated deliveries (replayed ciphertexts); "
                            "non-trivial = at least one forged rumor was published")
 
 
 def plan_C05(ctx, rt):
+    pr = adversary_profiles()
+    # queued proposals of other members swept up by admins' auto-commits and by a non-admin's self_update()
+    pr["quick"] = pr["quick"] + [dict(n=10, backend="mixed", profile="props")]
+    pr["thorough"] = pr["thorough"] + [dict(n=60, backend=["mixed", "mem", "sql"][i], profile="props", restarts=i % 2) for i in range(3)]
     return run_marmot(ctx, rt, invariants=["InvC05"], view="C05", mc=MC_CORE,
-                      profiles=adversary_profiles(), nontrivial=nt_raw, assumptions=ASSUME_MARMOT + ASSUME_ADV,
+                      profiles=pr, nontrivial=lambda h: nt_raw(h) or any(d["op"] == "Leave" and d["res"] == "Ok" for d in h), assumptions=ASSUME_MARMOT + ASSUME_ADV,
                       rule="membership histories with a malicious member building commits directly with the MLS library (non-admin group-data "
                            "change, non-admin removal, self-promotion to admin) and Remove proposals, interleaved with honest admin operations; "
                            "non-trivial = at least one raw commit/proposal was published")
